@@ -39,6 +39,12 @@ def meta(name):
     except Exception:
         return {}
 
+# meta.json is authoritative for changes that later repository fixes made harmless, also when the
+# matrix run predates that verdict
+for name in list(rows):
+    if meta(name).get("status") == "harmless-on-HEAD":
+        skipped.add(name)
+
 print("# Seeded changes: which check reports which change\n")
 print("Each directory `/verif/seeded/<ID>_m<k>/` holds a property-breaking change written by a sub-agent that saw only the property text and a scratch worktree of /repo: `patch.diff` (applies to /repo HEAD), the demonstration (`*.rs`, `run_demo.sh`), the agent's `README.md`, `confirm.log` (our own confirmation: demo passes without the change, fails with it, the whole existing suite passes with it) and `meta.json` (what it breaks, what it needs in order to manifest, what we ran). `_m1`/`_m2` are the first round, `_m3` the second, `_m4` the third and `_m5` the fourth (agents were told which mechanisms had been used already).\n")
 print("Matrix below: every change applied in a scratch worktree of /repo HEAD (`tools/scratch_check.sh`, driven by `tools/matrix.sh`), every check's quick tier run against it (VERIF_SEED=1). A cell lists the classification keys reported (`-` = the check stayed green, `?` = no run recorded). The target column is marked with `*`. KNOWN-FINDING keys are omitted.\n")
@@ -51,6 +57,8 @@ for name in sorted(rows):
     for p in PROPS:
         k = rows[name][p]
         c = "?" if k is None else ("-" if not k else ", ".join(k))
+        if p == tgt and name in skipped and not (k and k[0].startswith("(not run")):
+            c = "(harmless on HEAD) " + c
         if p == tgt:
             c = f"**{c}** *"
             if not k and name not in skipped:
@@ -60,7 +68,7 @@ for name in sorted(rows):
 print()
 n = len(rows) - len(skipped)
 if skipped:
-    print(f"Not run because a later repository fix made the change harmless (see meta.json): {', '.join(sorted(skipped))}.\n")
+    print(f"Made harmless by a later repository fix (see `note_after_later_fixes` in meta.json; their demonstrations no longer fail with the patch applied to HEAD) and therefore not counted: {', '.join(sorted(skipped))}.\n")
 if missed:
     print(f"{n - len(missed)} of {n} changes are reported by the quick tier of the check they target; not reported: {', '.join(missed)}.")
 else:
